@@ -97,7 +97,7 @@ func genC03(seed uint64, run int, tier string) *Case {
 		var ops []Op
 		for oi, n := 0, 1+g.r.n(maxOps); oi < n; oi++ {
 			pi := g.r.n(len(c.Programs))
-			op := Op{Kind: "eval", Prog: pi, Res: []int{infos[pi].ri}}
+			op := Op{Kind: pick(g.r, []string{"eval", "eval", "eval", "eval", "eval", "eval", "bool", "string", "int"}), Prog: pi, Res: []int{infos[pi].ri}}
 			if g.r.p(0.12) {
 				op.Res = append(op.Res, g.r.n(len(g.res))) // the same resource may appear twice in the input
 			}
